@@ -52,6 +52,8 @@ CHECKS = {
    text="One generated history runs on two databases, one with the index events; after every commit, abandoned transaction, compaction and reopen, `MATCH (n:L) WHERE n.p = v` and `MATCH (n:L {p: v})` for every indexed pair and every value of an adversarial universe must return identical ids on both.", ref="§3 C15"),
  "C17": dict(cat="fault_enumeration", tech="deterministic simulation with fault injection: stored-byte faults on the log tail (every truncation offset, zero/random/length-field/oversize tails, unfinished transaction, bit flips) followed by write + reopen rounds",
    text="Every truncation offset inside the last transaction (and every stride-th of the rest of the tail region) plus appended garbage tails and bit flips; each mutated log is opened, dumped against the state after the last completely written transaction, written to again and reopened twice.", ref="§3 C17"),
+ "C18": dict(cat="exploration", tech="deterministic simulation: page-ownership monitor on the disk seam (which structure allocates / claims / writes each page) over fault-free growth histories at scale, plus reopen dump",
+   text="Histories that create hundreds to thousands of nodes in batches interleaved with compaction, index creation, property, relationship and vector writes; every page event is attributed to a structure and a claim or write of a page owned by another structure is a violation at that instant; dump == model after reopen.", ref="§3 C18"),
  "C24": dict(cat="exploration", tech="deterministic simulation: explicit-transaction histories through the C API, transaction-local reference model, attribution by splitting transactions into auto-commit statements",
    text="Sessions with 80% multi-statement explicit transactions whose later statements read, update, merge or delete what earlier ones wrote; the model applies each statement to the transaction-local state and the dump after commit must equal it.", ref="§3 C24"),
  "C28": dict(cat="exploration", tech="deterministic simulation: model-based lifecycle histories (vacuum events) on the simulated disk",
